@@ -283,7 +283,7 @@ def third_party_cases(tier, seed):
         n = r.choice([1, 2, 3, 4, 6, 9]); m = r.choice([n, n, n + 1, max(1, n - 1)])
         rows = [[(c, dy(r, nz=True)) for c in sorted(r.sample(range(m), r.randint(0, min(m, 4))))] for _ in range(n)]
         x = [dy(r) for _ in range(m)]
-        for op in ("eigen", "eigen_map", "ublas"):
+        for op in ("eigen", "eigen_map", "eigen_unc", "ublas"):
             out.append("t%d %s %s %s" % (len(out), op, fmt_crs(n, m, rows), fmt_vec(x)))
     return out
 
@@ -395,7 +395,7 @@ def run(ctx, cases_override=None):
                 fails += run_vt(ctx, [l]); continue
             if op in DRV_OF_OP:
                 fails += run_pc(ctx, replay=cases_override); break
-            drv = "adapters3p" if op in ("eigen", "eigen_map", "ublas") else "adapters_idx" if op == "idx" else "adapters"
+            drv = "adapters3p" if op in ("eigen", "eigen_map", "eigen_unc", "ublas") else "adapters_idx" if op == "idx" else "adapters"
             if op in ("reorder_solve", "scaled_solve"): fails += run_solves(ctx, [l])
             else:
                 f, _, _ = diff_run(ctx, drv, [l])
